@@ -1,6 +1,7 @@
 CONSTANTS
   Tier = "q"
   Unguarded = {}
+  EveryRoleTrusted = FALSE
 INIT Init
 NEXT Next
 INVARIANTS
